@@ -27,7 +27,10 @@ Uris == {"u1", "u2"}
 
 VARIABLES docs, hist
 vars == <<docs, hist>>
-LspView == <<docs, Len(hist)>>
+\* Histories are merged when they lead to the same documents by the same KINDS of requests on the same
+\* URIs (texts may differ): a server that keeps something per request kind (a cache filled by a
+\* tokens request, cleared by a change) is driven through each shape of history separately.
+LspView == <<docs, [i \in 1..Len(hist) |-> <<hist[i].k, hist[i].uri>>]>>
 
 Req(k, uri, text) == [k |-> k, uri |-> uri, text |-> text]
 Do(req) ==
